@@ -288,6 +288,42 @@ __CPROVER_assigns()
     return U
 
 
+def cache_units():
+    """Simplex_tree::initialize_filtration(Comparator, Ignorer): the cache is rebuilt from scratch whatever it held -
+    every non-ignored simplex of complex_simplex_range exactly once, then sorted as a whole.  The vector, the range
+    and the sort are abstract (ghost arrays / trusted std algorithms); the loop is unwound (at most NSX simplices)."""
+    NSX = 6
+    G = (f"#define NSX {NSX}\ntypedef size_t Simplex_handle;\nsize_t g_nsimplex; bool g_ign[NSX]; Simplex_handle fv[2 * NSX]; size_t fv_n; unsigned g_sort_calls; size_t g_sort_n; size_t g_probe;\n"
+         "static void vec_clear(void) { fv_n = 0; }\n"
+         "static void vec_push(Simplex_handle sh) { __CPROVER_assert(fv_n < 2 * NSX, \"cache never grows beyond old content + one entry per simplex\"); fv[fv_n] = sh; fv_n++; }\n"
+         "static bool ignore_simplex(Simplex_handle sh) { __CPROVER_assert(sh < NSX, \"handle of the range\"); return g_ign[sh]; }\n"
+         "static void vp_sort_whole(void) { g_sort_calls++; g_sort_n = fv_n; }   /* std::stable_sort / tbb::parallel_sort(begin, end, is_before_in_filtration): permutes, trusted */\n"
+         "static unsigned x_count(Simplex_handle h) { unsigned c = 0; for (size_t k = 0; k < 2 * NSX; k++) if (k < fv_n && fv[k] == h) c++; return c; }\n"
+         "static size_t x_kept(void) { size_t c = 0; for (size_t k = 0; k < NSX; k++) if (k < g_nsimplex && !g_ign[k]) c++; return c; }\n"
+         "size_t nondet_size(void);\n")
+    con = """
+__CPROVER_requires(g_nsimplex <= NSX && fv_n <= NSX && g_probe < g_nsimplex && g_sort_calls == 0)
+__CPROVER_ensures(x_count(g_probe) == (g_ign[g_probe] ? 0 : 1))
+__CPROVER_ensures(fv_n == x_kept())
+__CPROVER_ensures(g_sort_calls == 1 && g_sort_n == fv_n)
+__CPROVER_assigns(fv, fv_n, g_sort_calls, g_sort_n)
+"""
+    subs = [(r"filtration_vect_\.clear\(\);", "vec_clear();", 0), (r"filtration_vect_\.reserve\([^;]*\);", "", 0),
+            (r"for \(Simplex_handle (\w+) : complex_simplex_range\(\)\) \{", r"for (size_t vp_k = 0; vp_k < g_nsimplex; vp_k++) { Simplex_handle \1 = vp_k;"),
+            (r"filtration_vect_\.push_back\(", "vec_push("),
+            (r"(?:std::stable_sort|std::sort|tbb::parallel_sort)\(filtration_vect_\.begin\(\), filtration_vect_\.end\(\), is_before_in_filtration\);", "vp_sort_whole();")]
+    U = []
+    for tbb in (False, True):
+        fn = Fn(ST, r"void initialize_filtration\(Comparator&& is_before_in_filtration, Ignorer&& ignore_simplex\) const", "initialize_filtration", con,
+                sig_subs=[(r"\(Comparator&& is_before_in_filtration, Ignorer&& ignore_simplex\)", "(void)")], subs=subs,
+                pp_defines=(("GUDHI_USE_TBB",) if tbb else ()), canary=(r"if \(ignore_simplex\((\w+)\)\) continue;", r"if (!ignore_simplex(\1)) continue;"))
+        U.append(Unit("order.cache.initialize_filtration" + (".tbb" if tbb else ""), "C03", [fn], enforce="initialize_filtration", globals_=G, unwind=2 * NSX + 2,
+                      route="B", bound=f"at most {NSX} simplices in the complex, at most {NSX} stale entries in the cache; which simplices are ignored is symbolic",
+                      inputs=["g_nsimplex", "fv_n", "g_probe", "g_ign"],
+                      harness="int main(void) {\n  g_nsimplex = nondet_size(); fv_n = nondet_size(); g_probe = nondet_size(); g_sort_calls = 0;\n  initialize_filtration();\n  __CPROVER_assert(0, \"VP_REACH\");\n  return 0;\n}\n",
+                      desc="Simplex_tree::initialize_filtration(Comparator, Ignorer)" + (" (GUDHI_USE_TBB branch)" if tbb else "") + ": whatever the cache held before, afterwards it lists every non-ignored simplex of the complex exactly once and no ignored one, and was sorted as a whole exactly once ('It always recomputes the cache, even if one already exists')"))
+    return U
+
 def units(tier):
     U = []
     G = GLUE + "bool g_rlo[NS][NS];\n"
@@ -325,6 +361,7 @@ def units(tier):
     U += lifetimes_units()
     U += prune_units()
     U += ignorer_units()
+    U += cache_units()
     U += extended_units(tier)
     # K6: the cubical comparator (shared with C13)
     for u in c13.comparator_units():
